@@ -19,7 +19,9 @@ RULE = {
            "fault point, fault kind) triples whose failing tag is not on line 1 (so the line is not trivially right).",
     "C13": "evaluations = template executions compared with the run-alone reference inside generated histories "
            "(Render/Parse+Exec/Clone/NewTemplate/BuffaloRenderer/RenderR/CacheSet over a family of programs, cache "
-           "on/off/cold/warm, map-order policy per op); distinct_nontrivial = distinct histories (hash of the op "
+           "on/off/cold/warm, map-order policy per op; hand-built Template values, the caller's nested data objects and "
+           "helpers map re-used across renders; results remembered across cases and a fixed corpus compared with "
+           "pristine-process renders); distinct_nontrivial = distinct histories (hash of the op "
            "sequence and program texts) with at least 3 executions over at least 2 programs.",
     "C14": "evaluations = simulated concurrent runs (2-8 caller tasks on one context, 2-10 executing templates, "
            "quick; up to 32, thorough; goroutines started by plush itself become further tasks) under a seeded "
@@ -43,7 +45,8 @@ ASSUMPTIONS = {
         "probes in else-if conditions are excluded (the property text does not say which line is meant)",
     ],
     "C13": [
-        "map iteration order is taken from the simulator seam, not from the Go runtime; maps iterated inside dependencies (encoding/json sorts keys itself) are outside the seam",
+        "map iteration order and what sync.Pool.Get returns are taken from the simulator seams, not from the Go runtime; maps iterated inside dependencies (encoding/json sorts keys itself) are outside the seam",
+        "the generated programs assign nothing into context data, so renders over re-used caller data objects must equal renders over fresh ones",
         "structural snapshots use node addresses as identities, sound within one process because Go's GC does not move heap objects",
     ],
     "C14": [
@@ -65,5 +68,7 @@ REAL_VS_STUB = {
                   "blocking of sync.Cond / Once / WaitGroup, channel send / receive / close / range / select (simrt; real primitives still give the race detector the real happens-before edges)",
                   "goroutines started by the code under test (become scheduler tasks; none on the pinned tree)",
                   "map iteration order (simrt.Entries / OrderValues)", "user helpers (recording probes with fault plan)",
-                  "partial feeder (in-memory file system with faults)", "io.Reader (chunking reader)"],
+                  "partial feeder (in-memory file system with faults)", "io.Reader (chunking reader)",
+                  "sync.Pool (per-pool list; reuse vs. fresh decided by the run's seeded stream; Put -> Get edge given to the race detector)",
+                  "process environment read by env()/envOr() (set by the harness)"],
 }
